@@ -123,7 +123,7 @@ class WorkerExecutor(Executor):
             return I(v)
         if ty == "()":
             return UNIT
-        return ("opaque", ty[:60])
+        return ("opaque", f"{ty[:50]}#{next(self.fresh)}")  # every arbitrary result is its own object
 
     def drop_value(self, st, v, body, t):
         if v[0] in ("arc", "broker", "opt", "opaque", "uninit"):
